@@ -34,8 +34,12 @@ const pullTimeoutMs = 5300
 
 // pullModel is the executable reference model written from the property text.
 type pullModel struct {
-	inTick     bool
-	inclusive  bool // an attempt that times out at the instant of a tick is over before that tick
+	inTick    bool
+	inclusive bool // an attempt that times out at the instant of a tick is over before that tick
+	// tie: when an attempt times out at the very instant of a tick, whether the timeout or the tick comes first is a
+	// scheduling decision inside lal, made anew each time; the model follows what was observed at that instant
+	// (did connection attempt number n start at `now`?) instead of fixing one order for the whole run
+	tie        func(now int64, n int) bool
 	static     bool
 	api        bool
 	retry      int // <0 forever
@@ -124,7 +128,11 @@ func (m *pullModel) stop(now int64, why string) bool {
 func (m *pullModel) tick(now int64) {
 	m.inTick = true
 	defer func() { m.inTick = false }()
-	if m.inFlight && (now > m.flightEnds || (m.inclusive && now == m.flightEnds)) {
+	if m.inFlight && now == m.flightEnds && m.tie != nil {
+		if m.tie(now, len(m.attempts)) {
+			m.inFlight = false
+		}
+	} else if m.inFlight && (now > m.flightEnds || (m.inclusive && now == m.flightEnds)) {
 		m.inFlight = false
 	}
 	if m.subs > 0 {
@@ -190,6 +198,8 @@ func execRelayRules(k *sim.Kernel, pl RelayRulesPlan) {
 	m2 := &pullModel{}
 	*m2 = *m
 	m2.inclusive = true
+	tie := func(now int64, n int) bool { return n < len(rr.Origins) && rr.Origins[n].AtMs == now }
+	m.tie, m2.tie = tie, tie
 	k.RegisterStub(originHostPort, func(c *sim.Conn) (sim.ConnHandler, time.Duration) {
 		i := len(rr.Origins)
 		mode := "accept"
